@@ -49,7 +49,7 @@ def run(tier, seed, replay=None):
     rng = random.Random(seed)
     tolf = state.knot_tolerance
     tol = C.fr(tolf)
-    nobj = 120 if tier == 'quick' else 2500
+    nobj = 250 if tier == 'quick' else 2500
     hist_len = 5 if tier == 'quick' else 8
     steps = []
     dist = {'op': {}, 'pardim': {}, 'periodic_dir': {}, 'errors': {}, 'spelling': {}}
